@@ -321,7 +321,42 @@ fn check_lists(lists: &[Vec<Vec<u8>>], agg: &mut Agg, st: &mut Stats) {
     }
 }
 
+/// `quote --split-file FILE`: decodes every line of FILE (a dry-run script, a `# Command:` line) with fclones' own
+/// splitter and with bash (in the bait directory); prints one JSON object per line:
+/// {"type":"line","own":[hex..]|null,"own_error":..,"bash":[hex..]|null}
+fn split_file(path: &str) {
+    let data = std::fs::read(path).expect("read script");
+    let text = String::from_utf8_lossy(&data).to_string();
+    let lines: Vec<String> = text.split('\n').filter(|l| !l.trim().is_empty()).map(|l| l.to_string()).collect();
+    let bash = bash_decode(&lines);
+    for (l, b) in lines.iter().zip(bash.into_iter()) {
+        let l2 = l.clone();
+        let own = catch_unwind(move || split(&l2));
+        let (own_s, err_s) = match own {
+            Ok(Ok(v)) => (
+                format!("[{}]", v.iter().map(|a| jstr(&hex(a.as_os_str().as_bytes()))).collect::<Vec<_>>().join(",")),
+                "null".to_string(),
+            ),
+            Ok(Err(e)) => ("null".to_string(), jstr(&e.to_string())),
+            Err(_) => ("null".to_string(), jstr("panic")),
+        };
+        let bash_s = match b {
+            Some(v) => format!("[{}]", v.iter().map(|a| jstr(&hex(a))).collect::<Vec<_>>().join(",")),
+            None => "null".to_string(),
+        };
+        println!("{{\"type\":\"line\",\"text\":{},\"own\":{},\"own_error\":{},\"bash\":{}}}", jstr(l), own_s, err_s, bash_s);
+    }
+    if DIR_USED.load(std::sync::atomic::Ordering::SeqCst) {
+        let _ = std::fs::remove_dir_all(bait_dir());
+    }
+    println!("{{\"type\":\"summary\",\"lines\":{}}}", lines.len());
+}
+
 pub fn main(args: &[String]) {
+    if let Some(f) = arg_val(args, "--split-file") {
+        split_file(f);
+        return;
+    }
     let mut agg = Agg::default();
     let mut st = Stats { strings: 0, lists: 0, bash_checked: 0, dollar: 0, single: 0, bare: 0 };
     if let Some(one) = arg_val(args, "--one") {
